@@ -17,7 +17,7 @@ x Origin in {each configured origin, proper prefixes and suffixes, substrings, c
 through three routes: Cors::get_headers / Header::get_header_list with the RWS_CONFIG_CORS_* environment, the struct-based Cors::_process, and a full Server::process round trip. \
 Oracle M-CORS: no Origin => no Access-Control-* header; switch on => Allow-Origin echoes Origin and Allow-Credentials is true; switch off => grants iff Origin equals one configured origin (list split on ','), \
 then Allow-Origin = Origin, credentials header iff configured true, and on OPTIONS methods / headers / expose / max-age equal the configured values (header lists compared case-insensitively). \
-Non-trivial = switch off and Origin is a near miss of a configured origin; distinct by (config, origin, method).",
+The full-server route requests one of twelve targets (root, static file, directory index, .html fallback, 70 KB file, missing path, built-in asset, form endpoint, nested files): the grants must be the same on every route that answers. Origins include look-alikes (blank-padded, trailing slash / dot / port, other scheme, userinfo and path tricks, doubled, NUL, 'null'). Non-trivial = switch off and Origin is a near miss of a configured origin; distinct by (config, origin, method).",
         &["configured lists contain no blanks (the documented spelling)", "an unset switch means the default (on)"],
         if tier == Tier::Quick { 600 } else { 7200 },
     )
@@ -33,6 +33,8 @@ pub struct Case {
     pub credentials: Option<bool>,
     pub max_age: String,
     pub origin: Option<String>,
+    /// index into TARGETS: the grants must be right on every route that answers (static files, directory index, .html fallback, built-in pages, form endpoints, 404)
+    #[serde(default)] pub target: u8,
     pub method: String,
     pub preflight: bool,
 }
@@ -69,10 +71,12 @@ fn case_strategy() -> impl Strategy<Value = Case> {
     (proptest::option::weighted(0.85, proptest::bool::weighted(0.25)), list(POOL.to_vec()), list(vec!["GET", "POST", "PUT", "DELETE", "PATCH"]), list(vec!["content-type", "x-custom-header", "Authorization", "X-Mixed-Case"]),
      list(vec!["content-type", "x-expose", "ETag"]), proptest::option::weighted(0.8, any::<bool>()), prop::sample::select(vec!["86400", "0", "5", "600"]))
         .prop_flat_map(|(allow_all, origins, methods, headers, expose, credentials, max_age)| {
-            (origin_strategy(origins.clone()), prop::sample::select(vec!["GET", "GET", "OPTIONS", "OPTIONS", "POST", "HEAD", "PUT"]), any::<bool>())
-                .prop_map(move |(origin, method, preflight)| Case { allow_all, origins: origins.clone(), methods: methods.clone(), headers: headers.clone(), expose: expose.clone(), credentials, max_age: max_age.to_string(), origin, method: method.to_string(), preflight })
+            (origin_strategy(origins.clone()), prop::sample::select(vec!["GET", "GET", "OPTIONS", "OPTIONS", "POST", "HEAD", "PUT"]), any::<bool>(), 0u8..12)
+                .prop_map(move |(origin, method, preflight, target)| Case { allow_all, origins: origins.clone(), methods: methods.clone(), headers: headers.clone(), expose: expose.clone(), credentials, max_age: max_age.to_string(), origin, method: method.to_string(), preflight, target })
         })
 }
+
+pub const TARGETS: [&str; 12] = ["/", "/", "/", "/a.txt", "/sub/", "/page", "/big.bin", "/missing", "/style.css", "/form-get-method?a=b", "/noindex/z.css", "/sub/deep/y.png"];
 
 fn set_env(c: &Case) {
     let set = |k: &str, v: Option<String>| match v { Some(v) => std::env::set_var(k, v), None => std::env::remove_var(k) };
@@ -89,7 +93,7 @@ fn request_of(c: &Case) -> Request {
     let mut headers = vec![Header { name: "Host".into(), value: "localhost".into() }];
     if let Some(o) = &c.origin { headers.push(Header { name: "Origin".into(), value: o.clone() }); }
     if c.preflight { headers.push(Header { name: "Access-Control-Request-Method".into(), value: "PUT".into() }); headers.push(Header { name: "Access-Control-Request-Headers".into(), value: "X-Req-Header".into() }); }
-    Request { method: c.method.clone(), request_uri: "/".into(), http_version: "HTTP/1.1".into(), headers, body: vec![] }
+    Request { method: c.method.clone(), request_uri: TARGETS[c.target as usize % TARGETS.len()].into(), http_version: "HTTP/1.1".into(), headers, body: vec![] }
 }
 
 /// M-CORS over a list of (name, value) headers that some route produced.
@@ -178,6 +182,7 @@ pub fn eval(ctx: &Ctx, c: &Case) -> Verdict {
     if near_miss { classes.push("near-miss-origin"); }
     if !switch_on && c.origin.as_ref().map(|o| c.origins.contains(o)).unwrap_or(false) { classes.push("listed-origin"); }
     if c.method == "OPTIONS" { classes.push("options"); }
+    if TARGETS[c.target as usize % TARGETS.len()] != "/" { classes.push("target-other-than-root"); }
     ctx.judge(problems, near_miss, classes)
 }
 
